@@ -30,11 +30,56 @@ SCOPE_NODES = ("StmtFunctionDef", "StmtAsyncFunctionDef", "StmtClassDef")
 MODULE_NODES = ("ModModule", "ModInteractive", "ModExpression", "ModFunctionType")
 
 
-def fields_touched(crate, f, include_closures=True):
-    """(owner adt, field) projections read anywhere in f (and closures defined in it)"""
+def _scc_of(cg, fid):
+    memo = getattr(cg, "_scc_index", None)
+    if memo is None:
+        memo = {}
+        for comp in cg.sccs():
+            for x in comp:
+                memo[x] = comp
+        cg._scc_index = memo
+    return memo.get(fid, [fid])
+
+
+def visitor_family(crate, f, cg=None, helpers=False):
+    """the functions that together make up visitor `f`: closures defined in it, the members of its recursion cycle (a helper
+    that calls back into it) and their closures; with helpers=True also the non-recursive local functions they call"""
+    roots = {f.id}
+    if cg is not None:
+        roots |= set(_scc_of(cg, f.id))
+    roots = {crate.fns[x].root if x in crate.fns else x for x in roots}
+    fam = [g for g in crate.real_fns() if g.root in roots]
+    if helpers and cg is not None:
+        seen = {g.id for g in fam}
+        frontier = list(fam)
+        for _depth in range(3):
+            nxt = []
+            for g in frontier:
+                for _bb, t, via in cg.callees(g.id):
+                    tf = crate.fns.get(t)
+                    if tf is None or t in seen or via == "spawn":
+                        continue
+                    if len(_scc_of(cg, t)) > 1 or t in {x for _b, x, _v in cg.callees(t)}:
+                        continue        # another recursive visitor: its reads are its own
+                    seen.add(t)
+                    nxt.append(tf)
+                    for h in crate.real_fns():
+                        if h.root == t and h.id not in seen:
+                            seen.add(h.id)
+                            nxt.append(h)
+            fam += nxt
+            frontier = nxt
+    return fam
+
+
+def fields_touched(crate, f, include_closures=True, cg=None, helpers=False):
+    """(owner adt, field) projections read anywhere in f (and closures defined in it; with a call graph, in its whole
+    visitor family)"""
     out = set()
     fns = [f]
-    if include_closures:
+    if cg is not None:
+        fns = visitor_family(crate, f, cg, helpers)
+    elif include_closures:
         fns += [g for g in crate.real_fns() if g.root == f.id and g.id != f.id]
     for g in fns:
         for b in g.blocks:
@@ -130,19 +175,32 @@ def stmt_visitors(crate, cg):
     return out
 
 
+def _rep_order(f):
+    """representative of a recursion cycle: the member taking a single statement, then by name"""
+    single = any(re.match(r"^&(rustpython_parser::)?rustpython_ast::Stmt$", f.local_ty(i)) for i in range(1, f.argc + 1))
+    return (0 if single else 1, f.id)
+
+
 def yield_visitors(ctx):
     crate = ctx.bin
     cg = ctx.callgraph()
     res = []
     for f in stmt_visitors(crate, cg):
-        cands = [f] + [crate.fns[t] for _bb, t, via in cg.callees(f.id) if via == "direct" and t in crate.fns]
+        fam = visitor_family(crate, f, cg)
+        cands = list(fam)
+        for g in fam:
+            cands += [crate.fns[t] for _bb, t, via in cg.callees(g.id) if via == "direct" and t in crate.fns]
         if any(tests_yield(crate, g) for g in cands):
             res.append(f)
-    return res
+    # one visitor per recursion cycle (a helper that calls back into the visitor belongs to it)
+    uniq = {}
+    for f in sorted(res, key=_rep_order):
+        uniq.setdefault(tuple(_scc_of(cg, f.id)), f)
+    return list(uniq.values())
 
 
-def descent(crate, f, universe):
-    touched = fields_touched(crate, f)
+def descent(crate, f, universe, cg=None):
+    touched = fields_touched(crate, f, cg=cg)
     return {u for u in universe if u in touched}
 
 
@@ -161,7 +219,7 @@ def r6a_yield_siblings(ctx):
         r.anchor_missing("yield visitors", "expected 2 recursive statement visitors testing Expr::Yield|YieldFrom, found %d" % len(ys))
         return r
     a, b = sorted(ys, key=lambda f: f.id)
-    da, db_ = descent(crate, a, uni), descent(crate, b, uni)
+    da, db_ = descent(crate, a, uni, ctx.callgraph()), descent(crate, b, uni, ctx.callgraph())
     for u in sorted(da | db_):
         if u in da and u in db_:
             r.ok(sample={"both_descend": _short(u)})
@@ -186,9 +244,18 @@ def _visitor_by_role(ctx):
     from ..facts import DbInfo
     db = ctx.memo("dbinfo", lambda: DbInfo(ctx))
     writers = {op.fn.root for op in db.ops_by_map.get("undeclared_fixtures", []) if op.method == "entry"}
-    for f in stmt_visitors(crate, cg):
-        direct = {t for _bb, t, via in cg.callees(f.id) if via == "direct"}
-        if direct & writers:
+    # the innermost statement visitor from which the code recording undeclared fixtures is reached
+    svs = stmt_visitors(crate, cg)
+    reach = {f.id: cg.reach([f.id]) for f in svs}
+    reaching = [f for f in svs if reach[f.id] & writers]
+    seen_scc = set()
+    for f in sorted(reaching, key=_rep_order):
+        scc = tuple(_scc_of(cg, f.id))
+        if scc in seen_scc:
+            continue
+        inner = [g for g in reaching if g.id not in scc and g.id in reach[f.id]]
+        if not inner:
+            seen_scc.add(scc)
             out["undeclared-use:" + f.id.split("::")[-1]] = f
     # local-variable collector: statement visitor with a `&mut HashMap<String, usize>` parameter
     for f in stmt_visitors(crate, cg):
@@ -216,7 +283,7 @@ def r6b_exhaustive(ctx, roles=("yield:", "undeclared-use:", "locals:"), rule="R6
     vis = {k: v for k, v in _visitor_by_role(ctx).items() if k.startswith(tuple(roles))}
     r.counts["visitors"] = ",".join(sorted(vis))
     for role, f in sorted(vis.items()):
-        d = descent(crate, f, uni)
+        d = descent(crate, f, uni, ctx.callgraph())
         for u in uni:
             key = "R6b|%s|lacks %s" % (f.id, _short(u))
             if u in d:
@@ -255,7 +322,7 @@ def r6c_binding_forms(ctx):
         r.anchor_missing("local-variable collector", "found %d" % len(loc))
         return r
     loc = loc[0]
-    touched = fields_touched(crate, loc)
+    touched = fields_touched(crate, loc, cg=ctx.callgraph(), helpers=True)
     tnames = {(o.split("::")[-1], n) for o, n in touched}
     present = [b for b in BINDING_FIELDS if (AST + b[0]) in crate.adts or True]
     for b in present:
@@ -272,7 +339,7 @@ def r6c_binding_forms(ctx):
     if len(enum) != 1:
         r.anchor_missing("parameter enumerator", "found %d" % len(enum))
     else:
-        t = {n for o, n in fields_touched(crate, enum[0]) if o.endswith("::Arguments")}
+        t = {n for o, n in fields_touched(crate, enum[0], cg=ctx.callgraph(), helpers=True) if o.endswith("::Arguments")}
         for a in ARG_FIELDS:
             key = "R6c|%s|Arguments.%s" % (enum[0].id, a)
             if a in t:
